@@ -19,9 +19,10 @@
 (*   Listed      every disagreement met on any path is in AllDIS           *)
 (*   CleanMatch  a DAG without a disagreeing node has static = run-time at *)
 (*               every node (inference and promotion compose)              *)
-(* Constants: MC_Types.cfg MaxNodes = 2, all 52 kinds (quick);             *)
-(* MC_Types_deep.cfg MaxNodes = 3, one representative kind per table row   *)
-(* (RepKinds) in the DAGs; AllDIS always ranges over all kinds.            *)
+(* Constants: MC_Types_quick.cfg MaxNodes = 2, one representative kind per *)
+(* table row (RepKinds) in the DAGs (quick); MC_Types.cfg MaxNodes = 2,    *)
+(* all 52 kinds, and MC_Types_deep.cfg MaxNodes = 3, RepKinds (thorough).  *)
+(* AllDIS always ranges over all kinds.                                    *)
 (* U1 validates the two tables against each other; it says nothing about  *)
 (* the code (that is Trace_Types).                                         *)
 (***************************************************************************)
